@@ -71,8 +71,10 @@ def scenario_for(inp, obname, out):
         stray = {'id': 77, 'op': okres(11, 1)} if 'after delivering' not in obname else None
         if stray is not None:
             notice = {'id': 0, 'op': {'cl': 1, 'id': 24, 'c': [{'cl': 0, 'id': 10, 'p': [52]}, {'cl': 0, 'id': 4, 'p': []}, {'cl': 0, 'id': 4, 'p': list(b'bye')}]}}
+            # strays of every kind: a late single result, late items of a search that is no longer running, an unsolicited notice
+            late_items = [{'id': 78, 'op': ENTRY}, {'id': 78, 'op': REF}, {'id': 78, 'op': okres(5)}]
             case = script([BIND, {'do': 'spawn_delete', 'dn': 'dc=pending'}, {'do': 'join'}, {'do': 'delete', 'dn': 'dc=after'}, {'do': 'driver'}],
-                          [BIND_OK, {'replies': [stray, notice, {'id': 'req', 'op': okres(11, 3)}]}, {'replies': [{'id': 'req', 'op': okres(11, 4)}]}])
+                          [BIND_OK, {'replies': [stray] + late_items + [notice, {'id': 'req', 'op': okres(11, 3)}]}, {'replies': [{'id': 'req', 'op': okres(11, 4)}]}])
             def pred(v):
                 j, dl = step(v, 'join'), step(v, 'delete')
                 if not (isinstance(j, dict) and j.get('ok', {}).get('rc') == 3): return f'a pending operation got {json.dumps(j)[:90]} instead of its own result (rc 3) after a stray response and an unsolicited notice'
